@@ -418,6 +418,17 @@ func (h *harness) run(loggers *memLoggers) {
 		res.Errors = append(res.Errors, "executable: "+err.Error())
 		return
 	}
+	launcher := ""
+	if cs.Launcher != "" {
+		launcher = h.registry + ".launcher"
+		_ = os.Remove(launcher)
+		if err := os.Symlink(selfExe, launcher); err != nil {
+			res.Errors = append(res.Errors, "launcher: "+err.Error())
+			return
+		}
+		defer func() { _ = os.Remove(launcher) }()
+		selfExe = launcher
+	}
 	shape, _ := json.Marshal(cs.Shape)
 	args := []string{ptreeArg, h.registry, "", "0", string(shape)}
 
@@ -519,6 +530,9 @@ func (h *harness) run(loggers *memLoggers) {
 		}
 	}
 
+	if launcher != "" {
+		_ = os.Remove(launcher)
+	}
 	// state at the stop request
 	if mainCall != nil && isDone(mainCall.done) && cs.Stop != "context-deadline" {
 		res.Vacuous = "the call had already returned before the stop request"
